@@ -87,7 +87,7 @@ func drive(c Case, next func(w *world, step int) (Op, bool)) outcome {
 			}
 		}
 		if cl.outcome == "ok" && cl.join {
-			obj := w.chans[cl.a].obj
+			obj := w.objOf(cl.h)
 			if obj == nil || !obj.Me().Equal(jid.MustParse(addrs[cl.a])) || !obj.Addr().Equal(jid.MustParse(addrs[cl.a]).Bare()) {
 				w.anom(fmt.Sprintf("wrong-address: call %d joined %s but the channel reports another address", cl.k, addrs[cl.a]))
 			}
@@ -124,12 +124,14 @@ func drive(c Case, next func(w *world, step int) (Op, bool)) outcome {
 func coqLabel(l Label) (string, bool) {
 	n := hx.CoqNat
 	switch l.T {
+	case "new":
+		return fmt.Sprintf("LNew %s %s", n(l.H), n(l.A)), true
 	case "call":
 		kd := "KLeave"
 		if l.O == "join" {
 			kd = "KJoin"
 		}
-		return fmt.Sprintf("LCall %s %s %s", n(l.K), kd, n(l.A)), true
+		return fmt.Sprintf("LCall %s %s %s", n(l.K), kd, n(l.H)), true
 	case "push":
 		return "LPush " + n(l.K), true
 	case "pushed":
@@ -147,7 +149,7 @@ func coqLabel(l Label) (string, bool) {
 	case "senderquit":
 		return "LSenderQuit " + n(l.K), true
 	case "query":
-		return fmt.Sprintf("LQuery %s %s", n(l.A), hx.CoqBool(l.B)), true
+		return fmt.Sprintf("LQuery %s %s", n(l.H), hx.CoqBool(l.B)), true
 	case "deliver":
 		switch l.O {
 		case "avail":
@@ -218,6 +220,10 @@ func corpus() []Case {
 	unp := func(a, v, p int) Op { return Op{Op: "unavail", A: a, V: v, P: p} }
 	msg := func(c string, v int) Op { return Op{Op: "msg", C: c, V: v} }
 	ot := func(v int) Op { return Op{Op: "other", V: v} }
+	cj := func(a int) Op { return Op{Op: "cjoin", A: a} }
+	jh := func(h int) Op { return Op{Op: "join", H: h + 1} }
+	lh := func(h int) Op { return Op{Op: "leave", H: h + 1} }
+	qh := func(h int) Op { return Op{Op: "query", H: h + 1} }
 	// presences with every payload shape from addresses that were never joined,
 	// then a join that must still work
 	var strangers, oddJoined []Op
@@ -228,7 +234,23 @@ func corpus() []Case {
 		}
 	}
 	strangers = append(strangers, ot(10), ot(11), ot(12), j(0), p(0), wt(0), avp(3, 2, 9), av(0, 2), q(0), unp(3, 2, 12), lv(0), wt(1), un(0, 2), q(0))
+	// Channel 0 joined for address 0 (call 0)
+	joined0 := []Op{j(0), p(0), wt(0), av(0, 2), q(0)}
+	with := func(ops ...Op) []Op { return append(append([]Op{}, joined0...), ops...) }
 	return []Case{
+		// several Channels for one occupant address: a second Client.Join (Channel 1, call 1) that is
+		// given up / refused / answered, then operations on the first Channel
+		{"second-join-cancelled-then-resync", with(cj(0), p(1), wt(1), cn(1), qh(0), qh(1), jh(0), p(2), wt(2), av(0, 2), qh(0), lh(0), wt(3), un(0, 2), qh(0), qh(1))},
+		{"second-join-cancelled-before-publish-then-resync", with(cj(0), cn(1), p(1), jh(0), p(2), av(0, 2), wt(2), qh(0))},
+		{"second-join-refused-then-resync", with(cj(0), p(1), wt(1), er(1, 0), qh(0), jh(0), p(2), wt(2), av(0, 3), qh(0), qh(1))},
+		{"second-join-refused-then-leave-first", with(cj(0), p(1), wt(1), er(1, 1), lh(0), wt(2), un(0, 2), qh(0), cn(2))},
+		{"second-join-succeeds-then-resync-first", with(cj(0), p(1), wt(1), av(0, 2), qh(0), qh(1), jh(0), p(2), wt(2), av(0, 2), qh(0), qh(1), un(0, 2), qh(0), qh(1))},
+		{"second-join-succeeds-then-leave-second", with(cj(0), p(1), wt(1), av(0, 2), lh(1), wt(2), un(0, 2), qh(1), qh(0))},
+		{"second-join-succeeds-then-leave-first", with(cj(0), p(1), wt(1), av(0, 2), lh(0), wt(2), un(0, 2), qh(1), qh(0), cn(2))},
+		{"second-join-pending-presence-to-it", with(cj(0), p(1), wt(1), un(0, 2), qh(0), qh(1), av(0, 2), qh(1))},
+		{"second-join-pending-first-resyncs", with(cj(0), p(1), wt(1), jh(0), p(2), wt(2), av(0, 2), qh(0), qh(1), cn(1), av(0, 0))},
+		{"two-fresh-channels-one-address", []Op{j(0), cj(0), p(0), p(1), wt(0), wt(1), av(0, 2), qh(0), qh(1), av(0, 2), cn(0), qh(0)}},
+		{"second-join-times-out-then-presence-then-resync", with(cj(0), p(1), wt(1), cn(1), av(0, 0), jh(0), p(2), wt(2), av(0, 2), qh(0), un(0, 0), qh(0), jh(1), p(3), wt(3), av(0, 2), qh(1), qh(0))},
 		{"strangers-any-payload-then-join", strangers},
 		{"joined-odd-payloads", append(append([]Op{j(0), p(0), wt(0), avp(0, 2, 1), q(0)}, oddJoined...), lv(0), wt(1), unp(0, 0, 4), q(0))},
 		{"self-presence-odd-payloads", []Op{j(0), p(0), wt(0), avp(0, 0, 4), q(0), j(1), p(1), wt(1), avp(1, 4, 2), q(1), j(2), p(2), wt(2), avp(2, 1, 7), q(2), lv(1), wt(3), unp(1, 1, 1), q(1)}},
@@ -302,9 +324,20 @@ func genOp(r *hx.Rand, w *world) Op {
 			withReq = append(withReq, c.k)
 		}
 	}
-	for a := 0; a < nAddr; a++ {
-		if w.chans[a].obj != nil && w.chans[a].entry && !w.inflight(a) {
-			member = append(member, a)
+	// Channels: registered and idle (candidates for Leave), all idle ones with an object, addresses that have one
+	var idleChans, haveChan []int
+	for h, ch := range w.chs {
+		if w.objOf(h) == nil || w.inflight(h) {
+			continue
+		}
+		idleChans = append(idleChans, h)
+		if w.table[ch.a] == h {
+			member = append(member, h)
+		}
+	}
+	for a := 0; a < 3; a++ {
+		if w.firstChan(a) >= 0 {
+			haveChan = append(haveChan, a)
 		}
 	}
 	pick := func(xs []int) int { return xs[r.Intn(len(xs))] }
@@ -326,7 +359,7 @@ func genOp(r *hx.Rand, w *world) Op {
 			return 0
 		case x < 85:
 			return 1 + r.Intn(nGood-1)
-		case !w.chans[a].entry || x >= 97:
+		case w.table[a] < 0 || x >= 97:
 			return nGood + r.Intn(len(payloads)-nGood)
 		default:
 			return r.Intn(nGood)
@@ -374,8 +407,19 @@ func genOp(r *hx.Rand, w *world) Op {
 		cs = append(cs, choice{12, func() Op { a := pick(pendLeaveAddr); return Op{Op: "unavail", A: a, V: r.Intn(32), P: shape(a)} }})
 	}
 	if len(member) > 0 {
-		cs = append(cs, choice{9, func() Op { return Op{Op: "leave", A: pick(member)} }},
-			choice{3, func() Op { a := pick(member); return Op{Op: "unavail", A: a, V: r.Intn(32), P: shape(a)} }})
+		cs = append(cs, choice{9, func() Op { h := pick(member); return Op{Op: "leave", A: w.chs[h].a, H: h + 1} }},
+			choice{3, func() Op { a := w.chs[pick(member)].a; return Op{Op: "unavail", A: a, V: r.Intn(32), P: shape(a)} }})
+	}
+	if len(haveChan) > 0 {
+		// another Client.Join for an address that already has a Channel
+		cs = append(cs, choice{5, func() Op { return Op{Op: "cjoin", A: pick(haveChan)} }})
+	}
+	if len(w.chs) > 1 && len(idleChans) > 0 {
+		// operations on a particular Channel, registered or not
+		cs = append(cs,
+			choice{6, func() Op { h := pick(idleChans); return Op{Op: "join", A: w.chs[h].a, H: h + 1} }},
+			choice{3, func() Op { h := pick(idleChans); return Op{Op: "leave", A: w.chs[h].a, H: h + 1} }},
+			choice{6, func() Op { h := r.Intn(len(w.chs)); return Op{Op: "query", A: w.chs[h].a, H: h + 1} }})
 	}
 	if len(withReq) > 0 {
 		cs = append(cs, choice{6, func() Op {
